@@ -32,6 +32,29 @@ type cmpSite struct {
 	alias  map[string]string // operand written as a local -> the single value that local names (resolved)
 	mult   int               // for a comparison read through a helper: at how many call sites of the helper it reads the same
 	rop    token.Token       // the operator under which the path is REFUSED (error / false / non-ACCEPT / continue / break), when the comparison governs such a branch; 0 otherwise
+	differ bool              // the two sides are known to differ here (the else of `a == b`): `>=` and `>` say the same, `<` and `<=` too
+}
+
+// opNZHi / opNZLo: `p > 0` / `p < 0` where p is known not to be 0. All four written inequalities then make ONE cut
+// (which of the two adjacent ones a writing names is an accident of `<` vs `<=`, of `!` and of branch order); canonCut
+// gives it one form whichever way the polynomial is oriented.
+const (
+	opNZHi = token.Token(-1)
+	opNZLo = token.Token(-2)
+)
+
+// cop: the operator to hand to canonCut / canonCutAbs for this comparison.
+func (s cmpSite) cop() token.Token {
+	if !s.differ {
+		return s.op
+	}
+	switch s.op {
+	case token.GTR, token.GEQ:
+		return opNZHi
+	case token.LSS, token.LEQ:
+		return opNZLo
+	}
+	return s.op
 }
 
 // neverNegative: an unsigned value, a length or capacity (also converted), or a constant >= 0.
@@ -107,7 +130,7 @@ func unsignedZeroTest(p Poly, op token.Token) (token.Token, int64, int64, bool) 
 	return 0, 0, 0, false
 }
 
-var flipOp = map[token.Token]token.Token{token.LSS: token.GTR, token.LEQ: token.GEQ, token.GTR: token.LSS, token.GEQ: token.LEQ, token.EQL: token.EQL, token.NEQ: token.NEQ}
+var flipOp = map[token.Token]token.Token{opNZHi: opNZLo, opNZLo: opNZHi, token.LSS: token.GTR, token.LEQ: token.GEQ, token.GTR: token.LSS, token.GEQ: token.LEQ, token.EQL: token.EQL, token.NEQ: token.NEQ}
 
 type cmpDecl struct {
 	pk *packages.Package
@@ -261,7 +284,7 @@ func cmpsIn(pk *packages.Package, fd *ast.FuncDecl, fn string, subst map[types.O
 		}
 		// where the two sides are known to differ (the else of `a == b`, a case after `a != b`), `a >= b` is `a > b`: the
 		// boundary is not reachable there, and the comparison is read in its strict form whichever way it was written
-		if site.op == token.GEQ || site.op == token.LEQ || site.rop == token.GEQ || site.rop == token.LEQ {
+		if site.op == token.GEQ || site.op == token.LEQ || site.op == token.GTR || site.op == token.LSS {
 			eqForm := canonCut(site.p, token.EQL)
 			for _, f := range pathFactsAt(fparents, be) {
 				if f.be.Op != token.EQL && f.be.Op != token.NEQ {
@@ -273,6 +296,7 @@ func cmpsIn(pk *packages.Package, fd *ast.FuncDecl, fn string, subst map[types.O
 					continue
 				}
 				if (f.be.Op == token.NEQ) != f.neg {
+					site.differ = true
 					strict := map[token.Token]token.Token{token.GEQ: token.GTR, token.LEQ: token.LSS}
 					// each of the two readings — the test as written, and the side that refuses — in its strict form
 					if r, ok := strict[site.op]; ok {
@@ -631,7 +655,7 @@ func coefOfAtom(p Poly, re *regexp.Regexp) (int64, bool) {
 
 func init() {
 	register(&Rule{Name: "cmp.spec", Floor: 40,
-		Doc: "each boundary comparison of the specification that zrnt implements (252 reviewed entries: function, operands, operator, integer offset, the spec's wording) is made in its function — or in an unexported helper it calls, read at the call site with the arguments in place of the parameters — with the spec's CUT (`a < b`, `b > a`, `!(a >= b)`, `a <= b-1` are one cut; `<` for `<=` or a dropped +1 is another) and, where a branch refuses or skips, on the spec's SIDE of it (an inverted test with swapped branches keeps the side, a flipped operator does not; comparisons that only govern actions are read through one recorded field/function/constant of the governed action). Operands are matched by name, failing that in resolved form (locals, alias paths and one-line helpers read through) or type-named resolved form; the reviewed shape over ANOTHER value of the same type is a violation. In five proto-array query functions coverage is closed: a refusing or skipping comparison that no entry accounts for is reported",
+		Doc: "each boundary comparison of the specification that zrnt implements (252 reviewed entries: function, operands, operator, integer offset, the spec's wording) is made in its function — or in an unexported helper it calls, read at the call site with the arguments in place of the parameters — with the spec's CUT (`a < b`, `b > a`, `!(a >= b)`, `a <= b-1` are one cut; `<` for `<=` or a dropped +1 is another; where the two sides are known to differ — the else of `a == b` — the boundary cannot be reached and all four inequalities are one cut) and, where a branch refuses or skips, on the spec's SIDE of it (an inverted test with swapped branches keeps the side, a flipped operator does not; comparisons that only govern actions are read through one recorded field/function/constant of the governed action). Operands are matched by name, failing that in resolved form (locals, alias paths and one-line helpers read through) or type-named resolved form; the reviewed shape over ANOTHER value of the same type is a violation. In five proto-array query functions coverage is closed: a refusing or skipping comparison that no entry accounts for is reported",
 		Run: ruleCmpSpec})
 	if len(os.Args) > 1 && os.Args[1] == "cmps" {
 		p, err := load(loadOpts{repo: dumpRepo()})
@@ -653,7 +677,7 @@ func init() {
 						ropS, mkS = r.String(), mk
 					}
 				}
-				fmt.Printf("%-55s %-2s  P=%-60s  // %s\t%s\t%s\t%s\t%s\t%s\n", fn, s.op, s.p.String(), s.text, canonCutAbs(s.pa, s.op), canonCut(s.pr, s.op), ropS, mkS, canonCutAbs(s.pra, s.op))
+				fmt.Printf("%-55s %-2s  P=%-60s  // %s\t%s\t%s\t%s\t%s\t%s\n", fn, s.op, s.p.String(), s.text, canonCutAbs(s.pa, s.cop()), canonCut(s.pr, s.cop()), ropS, mkS, canonCutAbs(s.pra, s.cop())+map[bool]string{true: "\tnz", false: ""}[s.differ])
 			}
 		}
 		os.Exit(0)
@@ -676,6 +700,7 @@ func ruleCmpSpec(c *Ctx) {
 			key := fmt.Sprintf("%s[type %s %s]", cs.fn, cs.typ, cs.op)
 			sites := all[cs.fn]
 			n := 0
+			looped := false
 			var first token.Pos
 			for _, s := range sites {
 				// the operator under which the governed code runs: `!(a == b)` and `if a == b { continue }` are a != b
@@ -693,11 +718,22 @@ func ruleCmpSpec(c *Ctx) {
 					if first == token.NoPos {
 						first = s.pos
 					}
+					in := cs.fn
+					if s.from != "" {
+						in = s.from
+					}
+					if cmpInLoop(in, s.pos) {
+						looped = true
+					}
 				}
 			}
 			switch {
 			case len(sites) == 0:
 				c.unm(key, token.NoPos, "function %s not found", cs.fn)
+			case n > 0 && n < cs.count && looped:
+				// fewer comparisons written, one of them in a loop (the twin checks now walk a table of rows): how many
+				// are MADE is the number of rows, which this count does not read
+				c.unm(key, first, "%s: %d comparison(s) (%s) of whole %s values are written where %d were reviewed, one of them inside a loop: how many are made depends on what the loop walks — %s", cs.fn, n, cs.op, cs.typ, cs.count, cs.spec)
 			case n != cs.count:
 				c.bad(key, sites[0].pos, "%s: expected %d comparisons (%s) of whole %s values, found %d — %s", cs.fn, cs.count, cs.op, cs.typ, n, cs.spec)
 			default:
@@ -819,7 +855,7 @@ func ruleCmpSpec(c *Ctx) {
 					continue
 				}
 				for _, e := range g.entries {
-					if e.abs != "" && canonCutAbs(sites[i].pa, sites[i].op) == e.abs && e.ra != "" && canonCutAbs(sites[i].pra, sites[i].op) != e.ra {
+					if e.abs != "" && canonCutAbs(sites[i].pa, sites[i].cop()) == e.abs && e.ra != "" && canonCutAbs(sites[i].pra, sites[i].cop()) != e.ra {
 						shape = &sites[i]
 					}
 				}
@@ -827,7 +863,7 @@ func ruleCmpSpec(c *Ctx) {
 			if shape != nil && valueOfOwnHelper(g.fn, shape.pr) {
 				// the other value is what an unexported helper of the package hands back (code moved into a helper, a
 				// loop-carried local): not a different field or getter put in the operand's place — undecided
-				c.unm(key, shape.pos, "%s: `%s` has the reviewed shape; read through its locals it compares %s (a value computed by a helper of the package), which this rule cannot relate to the reviewed %s — spec: %s", g.fn, shape.text, canonCut(shape.pr, shape.op), g.entries[0].res, specStr)
+				c.unm(key, shape.pos, "%s: `%s` has the reviewed shape; read through its locals it compares %s (a value computed by a helper of the package), which this rule cannot relate to the reviewed %s — spec: %s", g.fn, shape.text, canonCut(shape.pr, shape.cop()), g.entries[0].res, specStr)
 				continue
 			}
 			if shape != nil && cmpOnLiteralParam(g.fn, shape.pos) {
@@ -837,7 +873,7 @@ func ruleCmpSpec(c *Ctx) {
 				continue
 			}
 			if shape != nil {
-				c.bad(key, shape.pos, "%s: the spec's comparison (%s) is not made; `%s` has its shape but, read through its locals, compares %s where the reviewed code compares %s: another value of the same type was put in an operand's place", g.fn, specStr, shape.text, canonCut(shape.pr, shape.op), g.entries[0].res)
+				c.bad(key, shape.pos, "%s: the spec's comparison (%s) is not made; `%s` has its shape but, read through its locals, compares %s where the reviewed code compares %s: another value of the same type was put in an operand's place", g.fn, specStr, shape.text, canonCut(shape.pr, shape.cop()), g.entries[0].res)
 				continue
 			}
 			c.unm(key, sites[0].pos, "comparison not found in %s (spec: %s)", g.fn, specStr)
@@ -922,6 +958,16 @@ func ruleCmpSpec(c *Ctx) {
 					rop = flipOp[rop]
 				}
 			}
+			if s.differ {
+				// the sides are known to differ: one writing per truth side, in the entry's orientation
+				nz := map[token.Token]token.Token{token.GEQ: token.GTR, token.LSS: token.LEQ}
+				if r, ok := nz[op]; ok {
+					op = r
+				}
+				if r, ok := nz[rop]; ok {
+					rop = r
+				}
+			}
 			var coefs []int64
 			for _, re := range res {
 				co, _ := coefOfAtom(p, re)
@@ -1003,6 +1049,29 @@ func ruleCmpSpec(c *Ctx) {
 		}
 	}
 
+}
+
+// cmpInLoop: pos stands in the body of a for / range statement of fn.
+func cmpInLoop(fn string, pos token.Pos) bool {
+	d, ok := cmpDecls[fn]
+	if !ok || d.fd.Body == nil {
+		return false
+	}
+	in := false
+	ast.Inspect(d.fd.Body, func(n ast.Node) bool {
+		var body *ast.BlockStmt
+		switch x := n.(type) {
+		case *ast.ForStmt:
+			body = x.Body
+		case *ast.RangeStmt:
+			body = x.Body
+		}
+		if body != nil && body.Pos() <= pos && pos < body.End() {
+			in = true
+		}
+		return !in
+	})
+	return in
 }
 
 func fmtWant(m map[string]int) string {
@@ -1128,10 +1197,48 @@ func cmpNearMiss(fn string, atoms []string, res []*regexp.Regexp, sites []cmpSit
 				other = a
 			}
 		}
+		// the value in the operand's place hangs off a local the reviewed function did not have (`change.to.Epoch`, a
+		// row of a table the checks now loop over): what it holds is decided by how that local is filled, which this
+		// rule does not follow — not "another value put in the operand's place"
+		if other != "" {
+			root := other
+			if strings.HasPrefix(root, "len(") {
+				root = strings.TrimSuffix(strings.TrimPrefix(root, "len("), ")")
+			}
+			if k := strings.IndexAny(root, ".[("); k > 0 {
+				root = root[:k]
+			}
+			known := false
+			for t := range reviewedTokens(fn) {
+				tr := t
+				if k := strings.IndexAny(tr, ".[("); k > 0 {
+					tr = tr[:k]
+				}
+				if strings.EqualFold(tr, root) {
+					known = true
+				}
+			}
+			if !known && root != "" && root != "recv" {
+				isLocal := false
+				if dd, ok := cmpDecls[fn]; ok && dd.fd.Body != nil {
+					ast.Inspect(dd.fd.Body, func(n ast.Node) bool {
+						if id, ok := n.(*ast.Ident); ok && id.Name == root {
+							if _, isVar := dd.pk.TypesInfo.Defs[id].(*types.Var); isVar {
+								isLocal = true
+							}
+						}
+						return !isLocal
+					})
+				}
+				if isLocal {
+					continue
+				}
+			}
+		}
 		// an operand replaced by another value leaves the types of the comparison what they were: a comparison over
 		// other types that merely shares a local's name (a loop counter `i`) is another comparison
 		if nearMissReviewedAbs != "" && !byNumberNear(s, res) {
-			want, got := absTokRe.FindAllString(nearMissReviewedAbs, -1), absTokRe.FindAllString(canonCutAbs(s.pa, s.op), -1)
+			want, got := absTokRe.FindAllString(nearMissReviewedAbs, -1), absTokRe.FindAllString(canonCutAbs(s.pa, s.cop()), -1)
 			ty := func(t string) string { return t[:strings.LastIndex(t, "#")] }
 			pool := map[string]int{}
 			for _, t := range got {
@@ -1306,9 +1413,9 @@ func cmpAbsMatch(fn string, entries []cmpSpec, atoms []string, sites []cmpSite, 
 				}
 				// a renamed local (same shape by type, and the same once locals are read through), or the same
 				// comparison with a value moved into / out of a local
-				sameRA := e.ra != "" && canonCutAbs(sites[i].pra, sites[i].op) == e.ra
-				sameRes := e.res != "" && canonCut(sites[i].pr, sites[i].op) == e.res
-				if sameRA || (e.ra == "" && canonCutAbs(sites[i].pa, sites[i].op) == e.abs) || sameRes {
+				sameRA := e.ra != "" && canonCutAbs(sites[i].pra, sites[i].cop()) == e.ra
+				sameRes := e.res != "" && canonCut(sites[i].pr, sites[i].cop()) == e.res
+				if sameRA || (e.ra == "" && canonCutAbs(sites[i].pa, sites[i].cop()) == e.abs) || sameRes {
 					hit = i
 					if !sameRes {
 						allByValue = false
@@ -1440,7 +1547,7 @@ func canonCut(p Poly, op token.Token) string {
 		op = flipOp[op]
 	}
 	switch op {
-	case token.LEQ, token.GTR:
+	case token.LEQ, token.GTR, opNZHi, opNZLo:
 		return "cut " + p.String()
 	case token.LSS, token.GEQ:
 		return "cut " + polyAdd(p, polyConst(1), 1).String()
@@ -1914,13 +2021,20 @@ func countingLoop(info *types.Info, parents map[ast.Node]ast.Node, be *ast.Binar
 		return false
 	}
 	as, ok := f.Init.(*ast.AssignStmt)
-	if !ok || as.Tok != token.DEFINE || len(as.Lhs) != 1 || len(as.Rhs) != 1 {
+	if !ok || as.Tok != token.DEFINE || len(as.Lhs) != len(as.Rhs) {
 		return false
 	}
-	if id, ok := as.Lhs[0].(*ast.Ident); !ok || id.Name != iv.Name {
+	// `i := 0`, or `i, other := 0, expr` (a loop-invariant local declared beside the counter)
+	at := -1
+	for k, l := range as.Lhs {
+		if id, ok := l.(*ast.Ident); ok && id.Name == iv.Name {
+			at = k
+		}
+	}
+	if at < 0 {
 		return false
 	}
-	if tv, ok := info.Types[as.Rhs[0]]; !ok || tv.Value == nil || tv.Value.ExactString() != "0" {
+	if tv, ok := info.Types[as.Rhs[at]]; !ok || tv.Value == nil || tv.Value.ExactString() != "0" {
 		return false
 	}
 	switch post := f.Post.(type) {
